@@ -174,7 +174,12 @@ func c20Scripts() []c20Script {
 		}},
 		{"oauth2-start-callback", func(c *c20Client) {
 			// the client passes a parameter of its own through the round trip; the provider identifies it by its index
-			c.do(flows.OAuthStart(c.s, c.browser, "google", "login_hint="+url.QueryEscape(c.pid)+"&redir=%2Fhome%2F"+strconv.Itoa(c.idx)))
+			// (only every other client passes the extra parameter: what one client passes must not show up in another's redirect)
+			q := "redir=%2Fhome%2F" + strconv.Itoa(c.idx)
+			if c.idx%2 == 0 {
+				q = "login_hint=" + url.QueryEscape(c.pid) + "&" + q
+			}
+			c.do(flows.OAuthStart(c.s, c.browser, "google", q))
 			st := ""
 			func() {
 				if c.mu != nil {
